@@ -327,12 +327,12 @@ def afterCompile (S : Server) (e : SEv) (ag : Option Payload) (r : ConState × M
 theorem step_inTx_unfold {S : Server} {c : ConState} {t : Txn} {p : PSpec}
     (hl : S.last = some c) (h : InTx S c t p) (e : SEv) :
     ∃ c2 t2, NTx S c2 t2 p ∧
-      S.step .pickle e = afterCompile S e (some t2.current.pl) (compileStmt c2 S.txErr e.cf e.stmt) := by
+      S.step e = afterCompile S e (some t2.current.pl) (compileStmt c2 S.txErr e.cf e.stmt) := by
   obtain ⟨c2, t2, hN, heq⟩ := compile_prefix h S.txErr
     (fun c2 => compileStmt c2 S.txErr e.cf e.stmt) (tryCompileRollback e.stmt)
   refine ⟨c2, t2, hN, ?_⟩
-  unfold Server.step
-  simp only [Server.compileFor, h.sin, ↓reduceIte, hl, compileInTx, heq]
+  unfold Server.step Server.stepOn
+  simp only [Server.compileOn, h.sin, ↓reduceIte, hl, compileInTx, heq]
   unfold afterCompile
   rcases hcs : compileStmt c2 S.txErr e.cf e.stmt with ⟨c3, _ | u⟩
   · simp [Server.compileFailed, h.sin]
@@ -357,8 +357,8 @@ theorem rel_fail {S : Server} {c : ConState} {t : Txn} {p : PSpec}
 
 /-- what has to be shown of one statement -/
 def StepOk (S : Server) (p : PSpec) (e : SEv) : Prop :=
-  Rel (S.step .pickle e).1 (p.step e).1 ∧
-  (S.step .pickle e).2.agrees { cls := (p.step e).2, exposed := p.exposed, healthy := p.healthy }
+  Rel (S.step e).1 (p.step e).1 ∧
+  (S.step e).2.agrees { cls := (p.step e).2, exposed := p.exposed, healthy := p.healthy }
 
 theorem failed_self (p : PSpec) (h : p.failed = true) : { p with failed := true } = p := by
   cases p; simp_all
@@ -366,7 +366,7 @@ theorem failed_self (p : PSpec) (h : p.failed = true) : { p with failed := true 
 /-- the statement was rejected by the compiler, the spec rejects it and aborts the block -/
 theorem stepOk_rejected {S : Server} {c : ConState} {t : Txn} {p : PSpec}
     (hl : S.last = some c) (h : InTx S c t p) (e : SEv) (ag : Option Payload) (c3 : ConState) (err : Err)
-    (hstep : S.step .pickle e = afterCompile S e ag (c3, .error err))
+    (hstep : S.step e = afterCompile S e ag (c3, .error err))
     (hspec : p.step e = ({ p with failed := true }, .rejected)) : StepOk S p e := by
   unfold StepOk
   rw [hstep, hspec]
@@ -430,7 +430,7 @@ theorem rel_inTx {S : Server} {c : ConState} {t : Txn} {p : PSpec} (hl : S.last 
   unfold Rel; rw [if_pos h.sin]; exact ⟨c, t, hl, h⟩
 
 theorem stepOk_of {S : Server} {p : PSpec} {e : SEv} (R : Server × SOut)
-    (hstep : S.step .pickle e = R) (S3 : Server) (o : Outcome) (ag : Option Payload)
+    (hstep : S.step e = R) (S3 : Server) (o : Outcome) (ag : Option Payload)
     (h1 : R.1 = S3) (h2 : R.2.outcome = o) (h3 : R.2.against = ag)
     (p' : PSpec) (cl : OCls) (hspec : p.step e = (p', cl))
     (hrel : Rel S3 p') (hcls : o.cls = cl)
@@ -1327,15 +1327,15 @@ theorem stepOk_rollbackTo_inTx {S : Server} {c : ConState} {t : Txn} {p : PSpec}
 /-! ### one statement outside a transaction -/
 
 theorem step_out_unfold (S : Server) (hin : S.inTx = false) (e : SEv) :
-    S.step .pickle e =
+    S.step e =
       match compileStmt (ConState.init e.t0 ⟨S.uschema, S.gschema, S.aliases, S.config⟩) false e.cf e.stmt with
       | (_, .error err) =>
         (S, { outcome := .rejected err, against := some ⟨S.uschema, S.gschema, S.aliases, S.config⟩ })
       | (c3, .ok u) =>
         let r := ({ S with last := if u.txId.isSome then some c3 else none } : Server).run u e.bf
         (r.1, { outcome := r.2, against := some ⟨S.uschema, S.gschema, S.aliases, S.config⟩, unit := some u }) := by
-  unfold Server.step
-  simp only [Server.compileFor, hin, Bool.false_eq_true, ↓reduceIte, compileFresh]
+  unfold Server.step Server.stepOn
+  simp only [Server.compileOn, hin, Bool.false_eq_true, ↓reduceIte, compileFresh]
   rcases compileStmt (ConState.init e.t0 ⟨S.uschema, S.gschema, S.aliases, S.config⟩) false e.cf e.stmt
     with ⟨c3, _ | u⟩
   · simp [Server.compileFailed, Server.relabel, hin]
@@ -1524,8 +1524,8 @@ theorem rel_init (pl : Payload) : Rel (Server.init pl) (PSpec.init pl) := by
 
 theorem runAll_refines {S : Server} {p : PSpec} (hR : Rel S p) (h : List SEv)
     (hcov : p.coversAll h = true) :
-    Rel (Server.runAll .pickle S h).1 (p.run h).1 ∧
-    agreesAll (Server.runAll .pickle S h).2 (p.run h).2 := by
+    Rel (Server.runAll S h).1 (p.run h).1 ∧
+    agreesAll (Server.runAll S h).2 (p.run h).2 := by
   induction h generalizing S p with
   | nil => exact ⟨hR, trivial⟩
   | cons e es ih =>
